@@ -540,9 +540,16 @@ func (g *gen) template(k int) string {
 	g.maxMac = k // a template may use the macros before it
 	defer func() { g.maxMac = saved }()
 	v := g.fresh()
+	// quoted data inside a template, spelled (quote x) or 'x: both are data of the expansion
+	q := func(x string) string {
+		if g.r.IntN(2) == 0 {
+			return "'" + x
+		}
+		return "(quote " + x + ")"
+	}
 	switch m.Kind {
 	case "quote":
-		return fmt.Sprintf("`(let ((%s ,@ua)) (list (quote ,@ua) %s (list (+ %s 1) (quote (k 1)))))", v, v, v)
+		return fmt.Sprintf("`(let ((%s ,@ua)) (list %s %s (list (+ %s 1) %s)))", v, q(",@ua"), v, v, q("(k 1)"))
 	case "body":
 		g.tr++
 		return fmt.Sprintf("`(let ((%s ,@ua)) (vtr %d (list (+ %s 1) (* %s 2))) ,%%@ubody)", m.BodyVar, g.tr, m.BodyVar, m.BodyVar)
@@ -554,7 +561,7 @@ func (g *gen) template(k int) string {
 	if m.Ret == "int" {
 		return fmt.Sprintf("`(let ((%s ,@ua)) (+ %s (* %s %d) %s))", v, v, v, 2+g.r.IntN(3), g.intExpr(sc, 2))
 	}
-	return fmt.Sprintf("`(let ((%s ,@ua)) (list %s (list (+ %s 1) (quote (1 2))) %s))", v, v, v, g.anyExpr(sc, 2))
+	return fmt.Sprintf("`(let ((%s ,@ua)) (list %s (list (+ %s 1) %s) %s))", v, v, v, q("(1 2)"), g.anyExpr(sc, 2))
 }
 
 var paramNames = [][]string{{"@a", "@b", "@c"}, {"@x", "@y", "@z"}, {"@p", "@q", "@r"}, {"@i", "@j", "@k"}}
